@@ -45,6 +45,7 @@ pub const PROPS: &[PropInfo] = &[
     PropInfo { id: "C07", subsystem: "s2", runs: (20_000, 2_000_000), rule: "as C06 with traffic-heavy systems: repeated identical messages, several per flow, initial network contents, drops and redeliveries", oracle: "network content == reference flows/multiset/set after every step; deliverable set, drop offers, len(), iter_all() (bounded consumption) and iter_deliverable() agree with the content", real: S2_REAL, stub: S2_STUB, bounds: S2_BOUNDS },
     PropInfo { id: "C09", subsystem: "s2", runs: (20_000, 2_000_000), rule: "as C06 with crash budget 1-2 and crashes biased to land right after a send to the victim, with timers armed and choices pending; plus real BFS/DFS runs on small actor systems compared with the reference reachable set", oracle: "crash offered <=> actor up and fewer than k down; crash clears timers/choices and sets the flag only; no step of a crashed actor is ever effective; deliveries to it leave the message in place; the checker visits exactly the reference's reachable dumps (crash configurations are distinct)", real: S2_REAL, stub: S2_STUB, bounds: S2_BOUNDS },
     PropInfo { id: "C15", subsystem: "s2", runs: (20_000, 2_000_000), rule: "one case = one seeded lockstep walk (<= 60 steps) of a bare actor system and the same system wrapped in an adapter (Choice<A,Never>, Choice<A1,A2> in L/R positions, three-level nesting, RegisterActor::Server, WORegisterActor::Server, Vec client vs reference client), actors using messages, timers and random choices; distinct = distinct walk signatures; non-trivial = >= 2 lockstep steps", oracle: "at every step the effective steps of both systems correspond one to one and the successor states are equal modulo the wrapper constructor (actor states, network, timers, choices, crash flags)", real: &["Choice<A,Never>, Choice<A1,A2> Actor impls", "RegisterActor::Server / WORegisterActor::Server forwarding", "impl Actor for Vec<(Id,Msg)>", "ActorModel stepping both systems"], stub: S2_STUB, bounds: S2_BOUNDS },
+    PropInfo { id: "C16", subsystem: "s2", runs: (20_000, 2_000_000), rule: "one case = 2-3 link-wrapped actors (logging receivers, some ignoring messages in some states) sending 1-7 uniquely numbered messages to 1-2 peers over a duplicating / non-duplicating / ordered network, lossy or not; a seeded walk of <= 70 steps chooses deliveries, drops and resend-timer firings, followed by a quiescence phase (no drops, fair deliveries and resends); distinct = distinct walk signatures; non-trivial = >= 3 steps", oracle: "at every state, per (sender, receiver): the sequence handed to the wrapped actor is a prefix of the sequence sent to that peer; a message not yet handed over is still pending acknowledgement; when nothing is pending for that receiver the sequences are equal", real: &["ordered_reliable_link::ActorWrapper (on_start/on_msg/on_timeout, process_output, sequencers, acks, resend)", "ActorModel stepping, Network (all kinds), lossy drops"], stub: &["the wrapped actors (scripted senders / logging receivers)", "the choice of which delivery, drop or resend happens next (seeded walker)"], bounds: "2-3 actors, <= 7 messages per sender, walks <= 70 + 40 steps" },
     PropInfo { id: "C10", subsystem: "s2", runs: (20_000, 2_000_000), rule: "S2 half: every state reached by a seeded walk is passed to representative(); S1 half: DFS with and without symmetry on symmetric process models under the scheduler", oracle: "representative() == the state permuted (actor order, envelope endpoints, ids inside messages/history/local state, timers, crash flags, choices) by the stable argsort of the actor states, computed by harness code", real: S2_REAL, stub: S2_STUB, bounds: S2_BOUNDS },
     PropInfo { id: "C01", subsystem: "s1", runs: (6_000, 400_000), rule: "one case = one generated (graph model, checker configuration, schedule seed) executed by the real checker under the deterministic scheduler; distinct = distinct hash of the sequence of scheduling decisions and hook events; non-trivial = the run evaluated at least one state and took >= 30 scheduling steps (or > 2 context switches)", oracle: "visitor multiset == independent reachability set, each state once, visitor paths re-executed on the graph, unique_state_count == |reachable|, state_count >= unique", real: S1_REAL, stub: S1_STUB, bounds: S1_BOUNDS },
     PropInfo { id: "C02", subsystem: "s1", runs: (6_000, 400_000), rule: "as C01 with 1-5 always/sometimes(/eventually) properties labelled on the states", oracle: "discovery <=> witness exists in the independent reachable set; assert_properties/is_done agree", real: S1_REAL, stub: S1_STUB, bounds: S1_BOUNDS },
